@@ -20,7 +20,7 @@ if os.path.exists(f"{src}/notes.md"):
     shutil.copy(f"{src}/notes.md", f"{dst}/notes.md")
 meta = {
     "property": pid,
-    "source": "independent sub-agent given only the property text and a scratch worktree of /repo (round 1: d532453; round 2: 79242ae, told which mechanisms round 1 used)",
+    "source": os.environ.get("SOURCE", "independent sub-agent given only the property's statement and anchors and a scratch worktree of /repo; the round's theme is in DESIGN.md section 8"),
     "breaks": open(f"{src}/notes.md").read().split("\n\n")[0][:600] if os.path.exists(f"{src}/notes.md") else "",
     "needs_to_manifest": needs,
     "demonstration": demos,
